@@ -148,7 +148,7 @@ class Calls(SpecRT, Strings, Loops, AnyVals, AbsSeqs):
             raise Unsupported('store to modelled field %s.%s' % (cname, field))
         arr = self.heap_array(st, cname, field, kind)
         hk0 = self.ex.hooks.get('before_write')
-        if hk0:
+        if hk0 and not getattr(self, '_in_havoc', False):
             hk0(st, ref, cname, field, v, kind)
         if kind.startswith('opt:'):
             narr = st.heap[(cname, field + '?')]
@@ -330,10 +330,14 @@ class Calls(SpecRT, Strings, Loops, AnyVals, AbsSeqs):
             return self.getattr(v.inner, attr, st, fr, node)
         if isinstance(v, SSpecial):
             raise Unsupported('attribute of %s' % v.name)
+        if isinstance(v, SNone):
+            return ex.exc('AttributeError', st)
         raise Unsupported('getattr %s of %r' % (attr, v))
 
     def setattr(self, ov, attr, v, st, fr, node=None):
         ex = self.ex
+        if isinstance(ov, SNone):
+            return ex.exc('AttributeError', st)
         if isinstance(ov, SOpt):
             ov = ov.inner       # AttributeError on None is outside A-exc
         if isinstance(ov, SRef) and isinstance(ov.cls, ClassInfo):
@@ -581,6 +585,18 @@ class Calls(SpecRT, Strings, Loops, AnyVals, AbsSeqs):
                 return r
         con = self.contract_at_call(info, env, st)
         if con is not None:
+            free = con.opts.get('free')
+            if free:
+                pfr = ex.frames.get(f.parent_fid)
+                if pfr is None:
+                    raise Unsupported('closure %s called without its defining frame' % info.qualname)
+                for n in free:
+                    if n in env:
+                        continue
+                    v = ex.lookup(n, st, pfr)
+                    if v is None:
+                        return ex.exc('NameError', st)
+                    env[n] = v
             return self.apply_contract(con, info, env, st, fr, node)
         return self.inline(f, env, st, node)
 
